@@ -73,6 +73,10 @@ type nodeMon struct {
 
 	// C07
 	exp       hsTriple // exposed within incarnation
+	// baseFloor: index of the newest snapshot this incarnation installed; the
+	// log base (first index - 1) never falls back below it (C09: the
+	// snapshot is the node's new log base)
+	baseFloor uint64
 	termFloor uint64
 
 	// C08
@@ -329,6 +333,7 @@ func panicClass(msg string) string {
 		{"term should be set", "missing_term"},
 		{"term should not be set", "unexpected_term"},
 		{"missing log entry", "storage_append_gap"},
+		{"when getting unapplied entries", "unapplied_entries_error"},
 		{"unexpected error when getting", "unexpected_log_error"},
 		{"need non-empty snapshot", "empty_snapshot"},
 		{"is unavailable from storage", "storage_unavailable"},
@@ -358,6 +363,12 @@ func panicProps(msg string) []string {
 		return []string{"C06"}
 	case "applied_out_of_range", "applying_size_not_positive", "applying_out_of_range":
 		return []string{"C08"}
+	case "unapplied_entries_error":
+		// assembling the next batch of committed entries failed
+		return []string{"C08", "C03", "C18"}
+	case "scan_unapplied":
+		// the campaign guard's scan for unapplied conf changes failed
+		return []string{"C10"}
 	case "inflights_full", "append_in_snapshot_state":
 		return []string{"C16"}
 	case "loadstate_commit_out_of_range":
@@ -721,9 +732,16 @@ func (m *Monitors) stateChecks(n *Node, pre, post *raft.VerifState, c *Cause) {
 	if m.On["C07"] && post.Commit < pre.Commit {
 		m.viol([]string{"C07", "C09"}, "commit_monotone", "c07.commit_decreased", "node %d commit went %d -> %d (%s)", n.ID, pre.Commit, post.Commit, c.Kind)
 	}
+	// C09: an installed snapshot stays the log base (pending in the unstable
+	// log until acknowledged, in storage afterwards)
+	if m.On["C09"] && n.mon.baseFloor != 0 && post.FirstIndex < n.mon.baseFloor+1 {
+		m.viol([]string{"C09"}, "installed_snapshot_stays_base", "c09.log_base_fell_back",
+			"node %d installed snapshot %d in this incarnation but its log now starts at %d (pending snapshot %d, cause %s)",
+			n.ID, n.mon.baseFloor, post.FirstIndex, post.PendingSnapIndex, c.Kind)
+	}
 	// C06 oracle 2
-	if m.On["C06"] && post.Commit > post.LastIndex {
-		m.viol([]string{"C06"}, "commit_le_last", "c06.commit_gt_last", "node %d commit %d > last index %d", n.ID, post.Commit, post.LastIndex)
+	if (m.On["C06"] || m.On["C09"]) && post.Commit > post.LastIndex {
+		m.viol([]string{"C06", "C09"}, "commit_le_last", "c06.commit_gt_last", "node %d commit %d > last index %d", n.ID, post.Commit, post.LastIndex)
 	}
 
 	// C02 oracle 1
@@ -990,6 +1008,19 @@ func (m *Monitors) onReady(n *Node, rd *raft.Ready) {
 			s.Stats.inc("hs.term_change")
 		}
 		n.mon.exp = hsTriple{hs.GetTerm(), hs.GetVote(), hs.GetCommit()}
+	}
+	// C07 (a'): "exposes": the hard state is handed out whenever it changed
+	// (Ready doc: HardState is the current state to be saved before Messages
+	// are sent, empty if there is no update), so after a Ready was taken the
+	// last exposed hard state is the node's current one. A change that is
+	// never exposed is never persisted, and the node would not continue from
+	// it after a restart.
+	if m.On["C07"] {
+		if e := n.mon.exp; e.term != st.Term || e.vote != st.Vote || e.commit != st.Commit {
+			m.viol([]string{"C07"}, "hard_state_exposed", "c07.hard_state_not_exposed",
+				"node %d: after taking a Ready the last exposed hard state is (term %d vote %d commit %d) but the node is at (term %d vote %d commit %d)",
+				n.ID, e.term, e.vote, e.commit, st.Term, st.Vote, st.Commit)
+		}
 	}
 
 	// C08: apply stream
@@ -1548,6 +1579,7 @@ func (m *Monitors) c09Deliver(n *Node, pre, post *raft.VerifState, c *Cause) {
 	}
 	mustNot := si <= pre.Commit || matched
 	if installed {
+		n.mon.baseFloor = si
 		if mustNot {
 			m.viol([]string{"C09"}, "no_install_when_obsolete", "c09.installed_obsolete_snapshot",
 				"node %d installed snapshot (%d,%d) although commit was %d and local term at %d matched=%v", n.ID, si, stt, pre.Commit, si, matched)
@@ -1976,7 +2008,15 @@ func (m *Monitors) c17VoteRequest(n *Node, pre, post *raft.VerifState, req *pb.M
 				"node %d: MsgPreVote from %d changed (term,vote) (%d,%d) -> (%d,%d)", n.ID, req.GetFrom(), pre.Term, pre.Vote, post.Term, post.Vote)
 		}
 	}
-	if !n.Opts.CheckQuorum || req.GetTerm() <= pre.Term {
+	if !n.Opts.CheckQuorum || req.GetTerm() < pre.Term {
+		return
+	}
+	sameTerm := req.GetTerm() == pre.Term
+	if sameTerm && pre.Vote == req.GetFrom() {
+		// the repetition of a vote this node already cast in this term (it
+		// voted for the sender, another node won the term): answering the
+		// duplicate again grants nothing new
+		s.Stats.inc("lease.repeat_of_cast_vote")
 		return
 	}
 	forced := bytes.Equal(req.GetContext(), []byte("CampaignTransfer"))
@@ -1989,6 +2029,9 @@ func (m *Monitors) c17VoteRequest(n *Node, pre, post *raft.VerifState, req *pb.M
 		return
 	}
 	s.Stats.inc("lease.vote_request_inside_lease")
+	if sameTerm {
+		s.Stats.inc("lease.vote_request_inside_lease_same_term")
+	}
 	if !m.On["C17"] {
 		return
 	}
